@@ -83,10 +83,20 @@ void fp2_read_bin(fp2_t a, const uint8_t *bin, size_t len) {
 		return;
 	}
 	if (len == RLC_FP_BYTES + 1) {
+		/* The last byte is the parity of the second coefficient. */
+		if (bin[RLC_FP_BYTES] > 1) {
+			RLC_THROW(ERR_NO_VALID);
+			return;
+		}
 		fp_read_bin(a[0], bin, RLC_FP_BYTES);
 		fp_zero(a[1]);
 		fp_set_bit(a[1], 0, bin[RLC_FP_BYTES]);
-		fp2_upk(a, a);
+		/* There must be a unitary element with this first coefficient and a
+		 * second coefficient of this parity. */
+		if (!fp2_upk(a, a) || fp_get_bit(a[1], 0) != bin[RLC_FP_BYTES]) {
+			RLC_THROW(ERR_NO_VALID);
+			return;
+		}
 	}
 	if (len == 2 * RLC_FP_BYTES) {
 		fp_read_bin(a[0], bin, RLC_FP_BYTES);
